@@ -444,7 +444,6 @@ func judgeErr(c Case, operr error, desc string) string {
 func c17Opts(depth int) gen.Opts {
 	o := gen.Full(depth)
 	o.Disabled = false
-	o.Units = false
 	return o
 }
 
